@@ -176,6 +176,25 @@ def candidate_vectors(run, n):
             else: env[v] = rnd.choice([hi, hi, hi - rnd.randint(0, 3), lo, (hi + 1) // 2, rnd.randint(lo, hi)])
             env[v] = min(max(env[v], lo), hi)
         if ok(env): out.append(env)
+    # structured integer values for every input taken as a whole (boundaries of the group order and of the prime, powers of two)
+    Lq = 2**252 + 27742317777372353535851937790883648493; Pq = 2**255 - 19
+    specials = [Lq - 1, Lq, Lq + 1, 2**252, 2**252 - 1, 2**252 + 1, 2 * Lq - 1, 2 * Lq, 2**253 - 1, 2**253, 8 * Lq - 1, 8 * Lq, 2**255 - 1, 2**255, 2**256 - 1, Pq - 1, Pq, Pq + 1, 2 * Pq, 0, 1,
+                Lq * Lq - 1, Lq * Lq, 2**512 - 1, (Lq - 1) << 256]
+    for sp in specials:
+        for tgt in run.inputs:
+            env = {}; fits = True
+            for name, (layout, limbs, p_) in run.inputs.items():
+                val = sp if name == tgt else rnd.choice([0, 1, Lq - 1])
+                for i, x in enumerate(limbs):
+                    if x.is_const(): continue
+                    (m, c), = x.t.items(); v = m[0]
+                    lo, hi = ctx.bounds.get(v, (0, 0))
+                    w = layout.weights[i]; w2 = layout.weights[i + 1] if i + 1 < len(layout.weights) else None
+                    piece = (val >> w) if w2 is None else ((val >> w) & ((1 << (w2 - w)) - 1))
+                    if not (lo <= piece <= hi): fits = False; break
+                    env[v] = piece
+                if not fits: break
+            if fits and ok(env): out.append(env)
     return out
 
 def native_outputs(nat, run_c, env):
@@ -387,7 +406,27 @@ def discharge(rep, run, name, goals, roots, config, fn, bounds_note, timeout_s=6
                 else:
                     if status == "ok": status = "inconclusive"; rec["why"] = "sat without replay (" + gname + ")"
             elif v != "unsat":
-                if status == "ok": status = "inconclusive"; rec["why"] = "solver verdict %s on %s" % (v, gname)
+                # the solver gave up (time-out): structured / corner / random admissible vectors are run through the concrete interpreter and the
+                # natively built function; a vector that violates the goal there is a replayed counterexample (found by search, not by the solver)
+                found = False
+                if replay is not None:
+                    for cand in candidate_vectors(run, 64):
+                        try: ok2, det2 = replay(cand, gname)
+                        except lsym.PanicReached as e: ok2, det2 = True, dict(llsym_concrete="panic reached: " + str(e))
+                        except Exception: continue
+                        if not ok2: continue
+                        if nat is not None and selftest is not None and isinstance(det2, dict) and "llsym_concrete_outputs" in det2:
+                            try:
+                                rc2, _, _ = selftest(concrete=cand)
+                                no, err = native_outputs(nat, rc2, cand)
+                                det2["native_outputs"] = no if no is not None else err
+                                det2["native_call"] = getattr(native_outputs, "last_call", None)
+                                if no is not None and no != det2["llsym_concrete_outputs"]: continue
+                            except Exception as e: det2["native_error"] = str(e)[:200]
+                        g["model"] = {k: cand[k] for k in sorted(cand)}; g["replay"] = det2; g["reproduced"] = True
+                        g["witness_source"] = "candidate-vector search after solver verdict " + v; g["verdict"] = "sat"
+                        status = "violation"; found = True; break
+                if not found and status == "ok": status = "inconclusive"; rec["why"] = "solver verdict %s on %s" % (v, gname)
             rec["goals"].append(g)
         rec["status"] = status
     except ir.Unsupported as e:
